@@ -117,6 +117,14 @@ class Ctx:
                 names.append({"name": t, "file": f,
                               "assumptions": blocks[i] if i < len(blocks) else ["<not printed>"]})
         self.theorems = names
+        if self.tier == "thorough" and not self.replay and os.environ.get("VERIF_SKIP_COQCHK") != "1":
+            # independent re-check of the compiled property file and everything it depends on, with the axiom summary
+            mod = "Gopar.Props.%s" % self.prop
+            p = sh(["coqchk", "-silent", "-o", "-Q", ".", "Gopar", mod], cwd=COQ, timeout=6000, check=False)
+            tail = p.stdout[-1500:]
+            self.coverage["coqchk"] = {"module": mod, "exit": p.returncode, "summary": tail[tail.find("CONTEXT SUMMARY"):] if "CONTEXT SUMMARY" in tail else tail}
+            if p.returncode != 0:
+                raise Fail("coqchk rejected %s: %s" % (mod, tail))
         return names
 
     def build_model(self):
@@ -259,6 +267,7 @@ class Ctx:
             })
         if extra:
             cov.update(extra)
+        cov.update(self.coverage)
         cov["known_findings_reported"] = self.known
         if self.notes:
             cov["notes"] = self.notes
